@@ -288,3 +288,36 @@ Example round_ties :
   round_f (FDec (-25) (-1)) None = Ok (FInt (-2)) /\ round_f (FDec 5 (-1)) None = Ok (FInt 0) /\
   round_f (FDec 15 (-1)) None = Ok (FInt 2) /\ round_f (FDec 26 (-1)) None = Ok (FInt 3).
 Proof. vm_compute. repeat split. Qed.
+
+(** The shortcut of [round: -n] for a digit count above the bit length is the
+    value the general rule gives: a power of ten more than twice |z| rounds z to 0. *)
+Lemma round_to_mult_small z p : 0 < p -> 2 * Z.abs z < p -> round_to_mult z p p = 0.
+Proof.
+  intros Hp Hz. unfold round_to_mult.
+  pose proof (Z.div_mod z p ltac:(lia)) as D. pose proof (Z.mod_pos_bound z p Hp) as B.
+  set (q := z / p) in *. set (r := z mod p) in *.
+  assert (Hq : q = 0 \/ q = -1) by nia.
+  destruct Hq as [-> | ->].
+  - destruct (2 * r <? p) eqn:L; [lia|apply Z.ltb_ge in L; lia].
+  - destruct (2 * r <? p) eqn:L; [apply Z.ltb_lt in L; lia|].
+    destruct (p <? 2 * r) eqn:L2; [lia|apply Z.ltb_ge in L2; lia].
+Qed.
+
+Lemma bit_length_bound z : Z.abs z < 2 ^ bit_length z.
+Proof.
+  unfold bit_length. destruct (z =? 0) eqn:E; [apply Z.eqb_eq in E; subst; simpl; lia|].
+  apply Z.eqb_neq in E. apply Z.log2_spec. lia.
+Qed.
+
+Theorem round_huge_negative_digits z n :
+  bit_length z < - n -> round_to_mult z (10 ^ (- n)) (10 ^ (- n)) = 0.
+Proof.
+  intro H. assert (Hb : 0 <= bit_length z).
+  { unfold bit_length. destruct (z =? 0); [lia|]. pose proof (Z.log2_nonneg (Z.abs z)). lia. }
+  apply round_to_mult_small; [apply Z.pow_pos_nonneg; lia|].
+  pose proof (bit_length_bound z) as B.
+  assert (2 ^ (bit_length z + 1) <= 2 ^ (- n)) by (apply Z.pow_le_mono_r; lia).
+  assert (2 ^ (- n) <= 10 ^ (- n)) by (apply Z.pow_le_mono_l; lia).
+  replace (bit_length z + 1) with (Z.succ (bit_length z)) in H0 by lia.
+  rewrite Z.pow_succ_r in H0 by lia. lia.
+Qed.
